@@ -27,6 +27,7 @@ func init() {
 	commands["pool-c15"] = func(w string) { runPool(w, "C15") }
 	commands["pool-c19"] = func(w string) { runPool(w, "C19") }
 	commands["pool-c04"] = func(w string) { runPool(w, "C04") }
+	commands["pool-c20"] = func(w string) { runPool(w, "C20") }
 }
 
 // ---- in-memory message pipe ----
@@ -275,6 +276,7 @@ type poolRun struct {
 	killedConns map[int]bool
 	streams     map[int]*heldStream
 	grabs       []*grabbed
+	tickStamp   time.Time // the housekeeping clock when the current operation began
 }
 
 type heldStream struct {
@@ -415,6 +417,13 @@ func (r *poolRun) step(before, op, human string) {
 		r.cases = append(r.cases, fmt.Sprintf("PInit {| ic_maxconns := %d; ic_maxidle := %d; ic_keepalive := %d; ic_idleto := %d; ic_first := %s |}", r.cfg[0], r.cfg[1], r.cfg[2], r.cfg[3], after))
 	}
 	if before != "" {
+		// a background housekeeping round that ran inside this operation is not part of it (the real
+		// Transport.Call refreshes lastTime after the call has left the connection, and a round can fall
+		// in between): such steps are counted, not replayed; rounds are replayed as the explicit Tick steps
+		if op != "[OpTick]" && !r.t.VerifNow().Equal(r.tickStamp) {
+			r.e.Res.Distribution["step-overlapped-a-housekeeping-round"]++
+			return
+		}
 		r.cases = append(r.cases, fmt.Sprintf("PStep {| pcs_before := %s; pcs_ops := %s; pcs_after := %s |}", before, op, after))
 	}
 }
@@ -446,6 +455,7 @@ func (r *poolRun) before() string {
 	if !r.firstSnap {
 		return ""
 	}
+	r.tickStamp = r.t.VerifNow()
 	return r.snapshot()
 }
 
@@ -914,6 +924,7 @@ func (r *poolRun) close() {
 	for _, a := range r.addrs {
 		if n := r.w.openTo(a); n != 0 {
 			r.e.fail("C15-close-leaves-open", fmt.Sprintf("%d connections to %s still open after Transport.Close", n, a), r.replay())
+			r.e.fail("C20-transport-close-leaves-open", fmt.Sprintf("%d connections to %s still open after Transport.Close", n, a), r.replay())
 		}
 	}
 }
@@ -1012,6 +1023,23 @@ func (r *poolRun) script(i int) {
 	e := r.e
 	steps := 10 + e.Rng.Intn(25)
 	afterRestart := map[string]int{}
+	if r.prop == "C20" && r.cfg[2] < r.cfg[3] && i%4 != 3 {
+		// several connections in use at once, then unused past KeepAlive: parked; Close must close them all
+		a := r.addrs[0]
+		for k := 0; k < 4; k++ {
+			r.callBegin(a)
+		}
+		for k := range r.held {
+			r.callEnd(k)
+		}
+		r.backdate(60)
+		r.tick()
+		if i%2 == 0 {
+			r.call(a, false) // one of them is taken back into use
+		}
+		r.close()
+		return
+	}
 	if r.cfg[2] < r.cfg[3] && (i%2 == 0 || r.prop == "C15") { // KeepAlive < IdleConnTimeout: parked connections stay a while
 		r.busyFront(r.addrs[0])
 	}
